@@ -14,18 +14,12 @@ TRUSTED = [
     "OS half (exercised, not proved): signal delivery, signal.Notify, TIOCGWINSZ / TIOCSWINSZ, SIGWINCH, termios: every scenario runs one Program in its own child process on a pseudo-terminal pair (/dev/ptmx) and signals are sent only after the handler goroutine had time to register (the script waits for the program to be idle first)",
     "tie: the bodies of handleResize, listenForResize and checkResize equal the shapes below (an edit is an unclassified change)",
 ]
-SHAPES = {
-    "handleResize": "{ ch := make(chan struct{}) if p.ttyOutput != nil { go p.checkResize() go p.listenForResize(ch) } else { close(ch) } return ch }",
-    "listenForResize": "{ sig := make(chan os.Signal, 1) signal.Notify(sig, syscall.SIGWINCH) defer func() { signal.Stop(sig) close(done) }() for { select { case <-p.ctx.Done(): return case <-sig: } p.checkResize() } }",
-    "checkResize": "{ if p.ttyOutput == nil { return } w, h, err := term.GetSize(p.ttyOutput.Fd()) if err != nil { select { case <-p.ctx.Done(): case p.errs <- err: } return } p.Send(WindowSizeMsg{ Width: w, Height: h, }) }",
-}
+SHAPES = ["handleResize", "listenForResize", "checkResize"]     # frozen in coq/theories/RefShapes.v
 
 
 def tie(res):
-    pre = ("From Coq Require Import List Bool String.\nImport ListNotations.\nOpen Scope string_scope.\nFrom BTGen Require Signals.\n")
-    esc = lambda s: s.replace('"', '""')   # noqa: E731
-    body = ["Definition shape_is (n b : string) := match find (fun x => fst x =? n) Signals.shapes with Some (_, b') => b' =? b | None => false end.",
-            "Definition t := (%s)." % ", ".join('shape_is "%s" "%s"' % (k, esc(v)) for k, v in SHAPES.items())]
+    pre = ("From Coq Require Import List Bool String.\nImport ListNotations.\nOpen Scope string_scope.\nFrom BT Require Model.SkelTie.\nFrom BTGen Require Signals.\n")
+    body = ["Definition t := (%s)." % ", ".join('SkelTie.shapes_ok_for ["%s"]' % k for k in SHAPES)]
     vals, _ = C.coq_eval("cases_C18_tie", pre, body, ["t"], timeout=300)
     flags = [x == "true" for x in re.findall(r'true|false', vals["t"])]
     ok = all(flags) and len(flags) == len(SHAPES)
